@@ -2,6 +2,8 @@ import RomeaModel.Ransac
 import RomeaModel.Sampler
 import RomeaProofs.RealInst
 import RomeaProofs.Lemmas.C06Sampler
+import RomeaModel.RansacSampled
+import RomeaProofs.Lemmas.C06Composed
 import Mathlib.Tactic.Linarith
 import Mathlib.Tactic.NormNum
 import Mathlib.Analysis.Real.Sqrt
@@ -12,7 +14,8 @@ import Mathlib.Analysis.Real.Sqrt
 What is proved here is about the model `RomeaModel/Ransac.lean`: the adaptive iteration bound, the RANSAC loop over
 an arbitrary `RansacModel`, the consensus bookkeeping of the rigid-transformation model, the ICP one-to-one filter
 and the ICP outer loop — and, in the last section, about `RomeaModel/Sampler.lean`: the random engine, `generate_canonical`,
-the cumulative weights, the lower-bound search and the weight update of `RansacRandomCorrespondences`.  All other geometry
+the cumulative weights, the lower-bound search and the weight update of `RansacRandomCorrespondences`; the section after it is about
+`RomeaModel/RansacSampled.lean`, the skeleton with that sampler as its draw oracle.  All other geometry
 (candidate transformations, errors, nearest neighbours) is universally quantified (oracle outputs).  Scalars are `ℝ` (exact values of
 the doubles); the only partial operation on these paths is `sum / n` with `n = 0`, which the `n ≥ minimal inliers`
 guard excludes (`minInlOf dim > 0`), so Mathlib's totalised division is harmless — stated where it matters.
@@ -1029,5 +1032,340 @@ example : (⟨engineInit, List.replicate 2 zero, [0.5, 0.25], [1, 1]⟩ : State 
     (⟨engineInit, List.replicate 2 zero, [0.5, 0.25], [1, 1]⟩ : State ℝ ℝ).weights ≠ (State.init 2 : State ℝ ℝ).weights := by
   refine ⟨rfl, rfl, ?_⟩
   simp [State.init]
+
+end Romea.C06
+
+
+/-! # Sampler composed with the skeleton
+
+Theorems about `RomeaModel/RansacSampled.lean`: `Ransac::estimateModel` run on the rigid-transformation model whose `draw` calls the
+REAL sampler (`RansacRigidTransformationModel::draw`, .cpp:231-251) and threads its state through the iterations; only the geometry
+behind a sample (`compute_`, `check_`, the errors) is still an oracle (`Scene.geom`, a function of the call number and of the drawn
+indexes).  They hold for EVERY sampler state the run starts from (engine state, `scale_`, stale weights), every point set and
+correspondence list, every geometry oracle, every cap — hence for every `estimateModel` call of an ICP run, which re-uses the object.
+
+* `composed_terminates`, `composed_ret_iff` are INSTANTIATIONS of the skeleton theorems (they quantify over every `ModelOps`);
+* `composed_success_implies_consensus` is the skeleton theorem transported along `composed_run_is_skeleton_run`, a step-by-step
+  simulation (every scalar type): the composed run is the skeleton's run on the scripted oracle list that the sampler + geometry
+  produce (`oracle_list_is_geometry_of_samples`) — so every skeleton theorem about `rigidOps`, present or future, transfers;
+* what only the composition can say: `composed_engine_advance`, `composed_engine_across_runs` (every scalar type, `Float` included),
+  `composed_samples_distinct_targets`, `composed_one_to_one_distinct_correspondences` (ℝ), `composed_deterministic`,
+  `fresh_composed_agree` (every scalar type).
+
+Helpers: `RomeaProofs/Lemmas/C06Composed.lean`.  Tie: the two halves by their own ops (`ransac.script`, `smp.*`); the glue
+`drawSampled` (four lines read off `RansacRigidTransformationModel::draw`) by the second pass of `rr.real`: behind `loadPointSets` and
+behind every REAL `draw()` the harness reads the model object's own sampler member (`scale_`, `weights_`, `cumSumWeights_`, engine) and
+the tools replay "fresh sampler, `computeScale(min, max of the raw source points)`, ONE `drawPoints(raw points, loaded correspondences,
+draw size)` per `draw()` on the same state" (`smpAfter`) through the Lean sampler at `Float`: bit-exact. -/
+namespace Romea.C06
+open Romea.Ransac Romea.RansacSampled Romea.Generated
+open Romea.Sampler (next engineInit SumOrder Widen)
+
+/-! ## The skeleton theorems hold of the composed model -/
+
+/-- **termination, by instantiation** of `estimateModel_terminates` (which quantifies over every `ModelOps`): with the real sampler
+    as draw oracle the loop still exits by its own test within the cap and reports a bound at most the cap -/
+theorem composed_terminates (sc : Scene ℝ ℝ) (cast : ℝ → ℝ) (p eps : ℝ) (cap : Nat) (s : Sampled ℝ ℝ) :
+    (estimateModel (sampledOps sc cast) p eps cap s).diverged = false ∧
+    (estimateModel (sampledOps sc cast) p eps cap s).iterations ≤ cap ∧
+    (estimateModel (sampledOps sc cast) p eps cap s).bound ≤ (cap : ℝ) :=
+  estimateModel_terminates (sampledOps sc cast) p eps cap s
+
+/-- **verdict, by instantiation** of `estimateModel_ret_iff`: success exactly when there are at least `2·k` source points in the
+    correspondences and some counted consensus exceeded the draw size `k` (`k` = 3 in 2D, 4 in 3D) -/
+theorem composed_ret_iff (sc : Scene ℝ ℝ) (cast : ℝ → ℝ) (p eps : ℝ) (cap : Nat) (s : Sampled ℝ ℝ) :
+    (estimateModel (sampledOps sc cast) p eps cap s).ret = true ↔
+      minInlOf s.rigid.dim ≤ s.rigid.nPts ∧ nDrawOf s.rigid.dim < (estimateModel (sampledOps sc cast) p eps cap s).best :=
+  estimateModel_ret_iff (sampledOps sc cast) p eps cap s
+
+section AnyScalar
+variable {α β : Type}
+variable [Add α] [Sub α] [Mul α] [Div α] [LT α] [DecidableLT α] [LE α] [DecidableLE α] [NatCast α] [Trans α] [Trunc α]
+variable [Add β] [Sub β] [Mul β] [Div β] [Neg β] [NatCast β] [Trans β] [Widen β α]
+
+/-- **the composed run IS a skeleton run** (every scalar type): `estimateModel` on the composed model equals — verdict, iteration
+    count, best count, bound, divergence flag, and the rigid model's final state up to the unread rest of the script —
+    `estimateModel` on the skeleton's own rigid model (`rigidOps`) scripted with the candidates of the sampler's next `cap + 1`
+    samples (`toRigid`).  The skeleton's oracle list is thereby INSTANTIATED by the sampler. -/
+theorem composed_run_is_skeleton_run (sc : Scene α β) (cast : α → α) (p eps : α) (cap : Nat) (s : Sampled α β) :
+    ∃ m, estimateModel (rigidOps cast) p eps cap (toRigid sc (cap + 1) s)
+      = mapResult (toRigid sc m) (estimateModel (sampledOps sc cast) p eps cap s) :=
+  estimateModel_sim sc cast p eps cap s
+
+/-- … and that script is the geometry applied, call number by call number, to the sampler's own next samples: the `j`-th candidate
+    is `geom (calls before + j) (j-th sample)` — every candidate is estimated from the correspondences the sampler drew -/
+theorem oracle_list_is_geometry_of_samples (sc : Scene α β) (n : Nat) (s : Sampled α β) :
+    (toRigid sc n s).todo
+      = List.zipWith (fun j smp => sc.geom (s.samples.length + j) smp) (List.range n)
+          (sampleSeq sc (nDrawOf s.rigid.dim) n s.smp) ∧
+    (sampleSeq sc (nDrawOf s.rigid.dim) n s.smp).length = n :=
+  ⟨candSeq_eq sc _ _ n s.smp, sampleSeq_length sc _ n s.smp⟩
+
+end AnyScalar
+
+/-- **success implies consensus, with the real sampler** — the skeleton theorem transported along the simulation: started right
+    after `loadCorrespondences` (empty best set) with fewer than 2^24 correspondences, from ANY sampler state and for ANY geometry,
+    a `true` verdict means the stored best consensus has more than `k` and at least `2k` members, its RMSE is below σ and every
+    member has squared error below 9σ² -/
+theorem composed_success_implies_consensus (sc : Scene ℝ ℝ) (cast : ℝ → ℝ) (p eps : ℝ) (cap : Nat) (s : Sampled ℝ ℝ)
+    (hclr : s.rigid.cons.best = []) (hsz : s.rigid.sorted.length < 2 ^ 24) :
+    let r := estimateModel (sampledOps sc cast) p eps cap s
+    r.ret = true →
+      nDrawOf s.rigid.dim < r.s.rigid.cons.best.length ∧ 2 * nDrawOf s.rigid.dim ≤ r.s.rigid.cons.best.length ∧
+      r.s.rigid.cons.bestRmse < s.rigid.σ ∧
+      ∀ c ∈ r.s.rigid.cons.best, c.d < cast ((C06.inlierFactor : ℝ) * s.rigid.σ * s.rigid.σ) := by
+  intro r hret
+  obtain ⟨m, hm⟩ := estimateModel_sim sc cast p eps cap s
+  have h := success_implies_consensus cast p eps cap (toRigid sc (cap + 1) s) hclr hsz
+  simp only [hm] at h
+  exact h hret
+
+/-! ## What only the composition can say: the engine -/
+
+section AnyScalar
+variable {α β : Type}
+variable [Add α] [Sub α] [Mul α] [Div α] [LT α] [DecidableLT α] [LE α] [DecidableLE α] [NatCast α] [Trans α] [Trunc α]
+variable [Add β] [Sub β] [Mul β] [Div β] [Neg β] [NatCast β] [Trans β] [Widen β α]
+
+/-- **across a whole `estimateModel` run the engine advances by exactly 2 · (draw size) · (iterations executed) steps and is never
+    reseeded**; `scale_` is untouched; the samples logged are exactly the sampler's own next `iterations` samples — a sequence fixed
+    by the sampler state, the points and the correspondences alone: the geometry, σ, the consensus found so far decide only HOW MANY
+    of them are consumed.  Every scalar type (`Float` / `Float32` included), every start state, every oracle. -/
+theorem composed_engine_advance (sc : Scene α β) (cast : α → α) (p eps : α) (cap : Nat) (s : Sampled α β) :
+    let r := estimateModel (sampledOps sc cast) p eps cap s
+    r.s.smp.engine = next^[2 * nDrawOf s.rigid.dim * r.iterations] s.smp.engine ∧
+    r.s.smp.scale = s.smp.scale ∧
+    r.s.samples = s.samples ++ sampleSeq sc (nDrawOf s.rigid.dim) r.iterations s.smp ∧
+    r.s.samples.length = s.samples.length + r.iterations ∧
+    r.iterations ≤ cap + 1 := by
+  intro r
+  obtain ⟨h0, h1, h2, _⟩ := estimateModel_composed sc cast p eps cap s
+  obtain ⟨e1, e2⟩ := smpAfter_engine sc (nDrawOf s.rigid.dim) r.iterations s.smp
+  refine ⟨by rw [h1]; exact e1, by rw [h1]; exact e2, h2, ?_, h0⟩
+  rw [h2, List.length_append, sampleSeq_length]
+
+/-- a freshly constructed model (default-seeded engine): after its first run the engine is `next^[2·k·iterations] 1` -/
+theorem composed_engine_fresh (sc : Scene α β) (cast : α → α) (p eps : α) (cap : Nat) (rigid : Rigid α) (size : Nat) :
+    let r := estimateModel (sampledOps sc cast) p eps cap (Sampled.fresh rigid size : Sampled α β)
+    r.s.smp.engine = next^[2 * nDrawOf rigid.dim * r.iterations] 1 ∧ r.s.samples.length = r.iterations := by
+  intro r
+  obtain ⟨h1, _, _, h4, _⟩ := composed_engine_advance sc cast p eps cap (Sampled.fresh rigid size : Sampled α β)
+  refine ⟨?_, by simp only [Sampled.fresh, List.length_nil, Nat.zero_add] at h4; exact h4⟩
+  rw [h1]
+  show next^[_] engineInit = _
+  rw [engineInit_eq]
+  rfl
+
+/-- **never reseeded across the runs of an ICP loop either**: successive `estimateModel` runs on ONE model object — each behind its
+    own `loadCorrespondences` (new scene, new rigid-model data, any parameters) — leave the engine at the start state advanced by
+    twice the total number of points drawn, `Σ k_i · iterations_i`; `scale_` survives -/
+theorem composed_engine_across_runs (ls : List (Load α β)) (st : Sampler.State α β) :
+    (runLoads ls st).1.engine = next^[2 * (runLoads ls st).2] st.engine ∧ (runLoads ls st).1.scale = st.scale :=
+  runLoads_engine ls st
+
+end AnyScalar
+
+/-! ## What only the composition can say: the samples the candidates are estimated from -/
+
+/-- **every candidate model of the run is estimated from `k` correspondences with pairwise distinct target indexes** — whenever no
+    draw meets collapsed weights (`NoCollapseRun`: `NoCollapse` at each of the `iterations` calls): every sample the run hands to
+    the geometry has exactly `k` indexes, all in bounds with a positive loaded weight, pairwise distinct, with pairwise distinct
+    TARGET indexes.  Every start state with a legitimate engine, every geometry, every cap. -/
+theorem composed_samples_distinct_targets (sc : Scene ℝ ℝ) (cast : ℝ → ℝ) (p eps : ℝ) (cap : Nat) (s : Sampled ℝ ℝ)
+    (he : InRange s.smp.engine) (hw : ∀ c ∈ sc.corrs, 0 ≤ c.weight)
+    (hnc : NoCollapseRun sc (nDrawOf s.rigid.dim) (estimateModel (sampledOps sc cast) p eps cap s).iterations s.smp) :
+    let r := estimateModel (sampledOps sc cast) p eps cap s
+    r.s.samples = s.samples ++ sampleSeq sc (nDrawOf s.rigid.dim) r.iterations s.smp ∧
+    ∀ smp ∈ sampleSeq sc (nDrawOf s.rigid.dim) r.iterations s.smp,
+      smp.length = nDrawOf s.rigid.dim ∧ (∀ i ∈ smp, ∃ h : i < sc.corrs.length, 0 < sc.corrs[i].weight) ∧
+      (smp.map (tgtAt sc.corrs)).Nodup ∧ smp.Nodup := by
+  intro r
+  exact ⟨(composed_engine_advance sc cast p eps cap s).2.2.1, sampleSeq_good sc _ _ s.smp he hw hnc⟩
+
+/-- **on a one-to-one list every candidate is estimated from `k` DISTINCT correspondences**: if the correspondences have positive
+    weights and pairwise distinct targets, the source points of different correspondences differ along an axis with non-zero
+    `scale_` (`WellSpread`, the hypothesis of `one_to_one_draws_distinct_correspondences`) and `k ≤ n`, then NO draw of NO iteration
+    collapses, and every sample of the run consists of `k` in-bounds, pairwise distinct correspondences with pairwise distinct
+    target and pairwise distinct source indexes -/
+theorem composed_one_to_one_distinct_correspondences (sc : Scene ℝ ℝ) (cast : ℝ → ℝ) (p eps : ℝ) (cap : Nat) (s : Sampled ℝ ℝ)
+    (he : InRange s.smp.engine) (hws : WellSpread s.smp.scale sc.pts sc.corrs)
+    (hk : nDrawOf s.rigid.dim ≤ sc.corrs.length) :
+    let r := estimateModel (sampledOps sc cast) p eps cap s
+    (∀ n, NoCollapseRun sc (nDrawOf s.rigid.dim) n s.smp) ∧
+    r.s.samples = s.samples ++ sampleSeq sc (nDrawOf s.rigid.dim) r.iterations s.smp ∧
+    ∀ smp ∈ sampleSeq sc (nDrawOf s.rigid.dim) r.iterations s.smp,
+      smp.length = nDrawOf s.rigid.dim ∧ (∀ i ∈ smp, i < sc.corrs.length) ∧ smp.Nodup ∧
+      (smp.map (tgtAt sc.corrs)).Nodup ∧ (smp.map (srcAt sc.corrs)).Nodup := by
+  intro r
+  have hw : ∀ c ∈ sc.corrs, 0 ≤ c.weight := fun c hc => le_of_lt (hws.wpos c hc)
+  have hnc := fun n => noCollapseRun_of_wellSpread sc (nDrawOf s.rigid.dim) n s.smp he hws hk
+  obtain ⟨h1, h2⟩ := composed_samples_distinct_targets sc cast p eps cap s he hw (hnc _)
+  refine ⟨hnc, h1, fun smp hs => ?_⟩
+  obtain ⟨a, b, c, d⟩ := h2 smp hs
+  refine ⟨a, fun i hi => (b i hi).1, d, c, ?_⟩
+  rw [List.nodup_map_iff_inj_on d]
+  intro i hi j hj hij
+  exact hws.src_inj i j (b i hi).1 (b j hj).1 hij
+
+/-! ## What only the composition can say: determinism of the whole run -/
+
+section AnyScalar
+variable {α β : Type}
+variable [Add α] [Sub α] [Mul α] [Div α] [LT α] [DecidableLT α] [LE α] [DecidableLE α] [NatCast α] [Trans α] [Trunc α]
+variable [Add β] [Sub β] [Mul β] [Div β] [Neg β] [NatCast β] [Trans β] [Widen β α]
+
+/-- **the whole run is a function of the rigid-model data, the engine state, `scale_`, the scene and the parameters — nothing else**:
+    two composed models that agree on those (their stale `weights_` / `cumSumWeights_` may differ) make the same sequence of draws,
+    execute the same number of iterations and return the same verdict, best count and bound, and end with the same rigid-model
+    state, engine state and `scale_`.  Every scalar type. -/
+theorem composed_deterministic (sc : Scene α β) (cast : α → α) (p eps : α) (cap : Nat) (s1 s2 : Sampled α β)
+    (hr : s1.rigid = s2.rigid) (he : s1.smp.engine = s2.smp.engine) (hs : s1.smp.scale = s2.smp.scale)
+    (hl : s1.samples = s2.samples) :
+    let r1 := estimateModel (sampledOps sc cast) p eps cap s1
+    let r2 := estimateModel (sampledOps sc cast) p eps cap s2
+    r1.s.samples = r2.s.samples ∧ r1.ret = r2.ret ∧ r1.iterations = r2.iterations ∧ r1.best = r2.best ∧ r1.bound = r2.bound ∧
+    r1.diverged = r2.diverged ∧ r1.s.rigid = r2.s.rigid ∧ r1.s.smp.engine = r2.s.smp.engine ∧ r1.s.smp.scale = r2.s.smp.scale := by
+  intro r1 r2
+  obtain ⟨a, b, c, d, e, f1, f2, f3, f4⟩ := estimateModel_congr sc cast p eps cap s1 s2 ⟨hr, he, hs, hl⟩
+  exact ⟨f4, a, b, c, d, e, f1, f2, f3⟩
+
+/-- **"deterministic per object"**: two freshly constructed composed models (default-seeded engine, zero `scale_`) — or a fresh one
+    and any object in that engine / scale state, whatever its leftover weights — given the same inputs make the same sequence of
+    draws and return the same verdict -/
+theorem fresh_composed_agree (sc : Scene α β) (cast : α → α) (p eps : α) (cap : Nat) (rigid : Rigid α) (size : Nat)
+    (other : Sampler.State α β) (he : other.engine = engineInit) (hs : other.scale = List.replicate size Sampler.zero) :
+    let r1 := estimateModel (sampledOps sc cast) p eps cap { rigid := rigid, smp := other, samples := [] }
+    let r2 := estimateModel (sampledOps sc cast) p eps cap (Sampled.fresh rigid size : Sampled α β)
+    r1.s.samples = r2.s.samples ∧ r1.ret = r2.ret ∧ r1.iterations = r2.iterations ∧ r1.best = r2.best := by
+  intro r1 r2
+  obtain ⟨a, b, c, d, _⟩ := composed_deterministic sc cast p eps cap
+    { rigid := rigid, smp := other, samples := [] } (Sampled.fresh rigid size : Sampled α β) rfl he hs rfl
+  exact ⟨a, b, c, d⟩
+
+end AnyScalar
+
+/-! ## Non-vacuity -/
+
+section ComposedExamples
+
+/-- three correspondences on the corners of a triangle (the `wellSpread_example` data), a geometry whose `check_` always fails -/
+private noncomputable def sc0 : Scene ℝ ℝ :=
+  { order := .left, pts := #[[0, 0], [1, 0], [0, 1]], corrs := [⟨0, 5, 1⟩, ⟨1, 3, 1⟩, ⟨2, 4, 2⟩],
+    geom := fun _ _ => { ok := false, errs := [] } }
+
+/-- a freshly loaded 2D model (6 source points in the correspondences, σ = 1) whose sampler has unit `scale_` and engine state 1 -/
+private noncomputable def s0 : Sampled ℝ ℝ :=
+  { rigid := ⟨2, 6, 1, [], [], [], Consensus.cleared 100, false⟩, smp := ⟨1, [1, 1], [], []⟩, samples := [] }
+
+private theorem s0_inRange : InRange s0.smp.engine := by show 1 ≤ 1 ∧ 1 ≤ Sampler.lcgM - 1; unfold Sampler.lcgM; omega
+
+/-- the composed run is not trivial: with cap 2 and a geometry that rejects every sample, both iterations are executed … -/
+private theorem s0_iterations : (estimateModel (sampledOps sc0 id) (0.99 : ℝ) 0 2 s0).iterations = 2 := by
+  simp only [estimateModel, loop, body, sampledOps, drawSampled, rigidOps, sc0, s0, Iterations.init, nDrawOf, minInlOf,
+    C06.drawPoints2D, C06.minimalInliersFactor]
+  simp
+
+/-- … so the engine has advanced by 2 · 3 · 2 = 12 steps, six variates, two samples of three indexes (`composed_engine_advance`) -/
+example : (estimateModel (sampledOps sc0 id) (0.99 : ℝ) 0 2 s0).s.smp.engine = next^[12] 1 ∧
+    (estimateModel (sampledOps sc0 id) (0.99 : ℝ) 0 2 s0).s.samples.length = 2 := by
+  obtain ⟨h1, _, _, h4, _⟩ := composed_engine_advance sc0 id (0.99 : ℝ) 0 2 s0
+  rw [s0_iterations] at h1 h4
+  exact ⟨h1, h4⟩
+
+/-- the hypotheses of `composed_one_to_one_distinct_correspondences` — and through it `NoCollapseRun`, the hypothesis of
+    `composed_samples_distinct_targets` — are met by that model: `k = 3 ≤ 3` correspondences, well spread -/
+example : InRange s0.smp.engine ∧ WellSpread s0.smp.scale sc0.pts sc0.corrs ∧ nDrawOf s0.rigid.dim ≤ sc0.corrs.length :=
+  ⟨s0_inRange, wellSpread_example, by simp [s0, sc0, nDrawOf, C06.drawPoints2D]⟩
+
+example : NoCollapseRun sc0 (nDrawOf s0.rigid.dim) (estimateModel (sampledOps sc0 id) (0.99 : ℝ) 0 2 s0).iterations s0.smp :=
+  (composed_one_to_one_distinct_correspondences sc0 id 0.99 0 2 s0 s0_inRange wellSpread_example
+    (by simp [s0, sc0, nDrawOf, C06.drawPoints2D])).1 _
+
+/-- … and both samples of that run are permutations of the three correspondences -/
+example : ∀ smp ∈ (estimateModel (sampledOps sc0 id) (0.99 : ℝ) 0 2 s0).s.samples, smp.length = 3 ∧ smp.Nodup := by
+  obtain ⟨_, h2, h3⟩ := composed_one_to_one_distinct_correspondences sc0 id 0.99 0 2 s0 s0_inRange wellSpread_example
+    (by simp [s0, sc0, nDrawOf, C06.drawPoints2D])
+  intro smp hs
+  rw [h2] at hs
+  have hs' : smp ∈ sampleSeq sc0 (nDrawOf s0.rigid.dim) (estimateModel (sampledOps sc0 id) (0.99 : ℝ) 0 2 s0).iterations s0.smp := by
+    simpa [s0] using hs
+  obtain ⟨a, _, c, _⟩ := h3 smp hs'
+  exact ⟨by simpa [s0, nDrawOf, C06.drawPoints2D] using a, c⟩
+
+/-- hypotheses of `composed_success_implies_consensus` (freshly loaded model) and of `composed_ret_iff`'s right-hand side (enough
+    points: `2·3 ≤ 6`) -/
+example : s0.rigid.cons.best = [] ∧ s0.rigid.sorted.length < 2 ^ 24 ∧ minInlOf s0.rigid.dim ≤ s0.rigid.nPts := by
+  simp [s0, Consensus.cleared, minInlOf, nDrawOf, C06.drawPoints2D, C06.minimalInliersFactor]
+
+/-- a geometry that accepts every sample with zero error on six one-to-one sorted correspondences: the hypothesis `ret = true` of
+    `composed_success_implies_consensus` is attainable in the composed model (cap 1: one sample is drawn, its consensus of 6 > 3
+    members with RMSE 0 < σ wins, the bound stays ≤ 1 and the loop exits) -/
+private noncomputable def sc1 : Scene ℝ ℝ :=
+  { order := .left, pts := #[[0, 0], [1, 0], [0, 1]], corrs := [⟨0, 5, 1⟩, ⟨1, 3, 1⟩, ⟨2, 4, 2⟩],
+    geom := fun _ _ => { ok := true, errs := [0, 0, 0, 0, 0, 0] } }
+
+private noncomputable def s1 : Sampled ℝ ℝ :=
+  { rigid := ⟨2, 6, 1, [⟨0, 0, 0⟩, ⟨1, 1, 0⟩, ⟨2, 2, 0⟩, ⟨3, 3, 0⟩, ⟨4, 4, 0⟩, ⟨5, 5, 0⟩], [], [], Consensus.cleared 100, false⟩,
+    smp := ⟨1, [1, 1], [], []⟩, samples := [] }
+
+private theorem s1_count :
+    (countInliers id 6 [⟨0, 0, 0⟩, ⟨1, 1, 0⟩, ⟨2, 2, 0⟩, ⟨3, 3, 0⟩, ⟨4, 4, 0⟩, ⟨5, 5, 0⟩] [0, 0, 0, 0, 0, 0] (1 : ℝ)
+      (Consensus.cleared 100)).2.1 = 6 := by
+  have h : inliers id [⟨0, 0, 0⟩, ⟨1, 1, 0⟩, ⟨2, 2, 0⟩, ⟨3, 3, 0⟩, ⟨4, 4, 0⟩, ⟨5, 5, 0⟩] [0, 0, 0, 0, 0, 0] (1 : ℝ)
+      = [⟨0, 0, 0⟩, ⟨1, 1, 0⟩, ⟨2, 2, 0⟩, ⟨3, 3, 0⟩, ⟨4, 4, 0⟩, ⟨5, 5, 0⟩] := by
+    simp [inliers, C06.inlierFactor]
+  have hu : uniqueInPlace eqTgt ([⟨0, 0, 0⟩, ⟨1, 1, 0⟩, ⟨2, 2, 0⟩, ⟨3, 3, 0⟩, ⟨4, 4, 0⟩, ⟨5, 5, 0⟩] : List (Corr ℝ))
+      = [⟨0, 0, 0⟩, ⟨1, 1, 0⟩, ⟨2, 2, 0⟩, ⟨3, 3, 0⟩, ⟨4, 4, 0⟩, ⟨5, 5, 0⟩] := by
+    simp [uniqueInPlace, uniq, uniqAux, eqTgt]
+  have hr : rmseOf ([⟨0, 0, 0⟩, ⟨1, 1, 0⟩, ⟨2, 2, 0⟩, ⟨3, 3, 0⟩, ⟨4, 4, 0⟩, ⟨5, 5, 0⟩] : List (Corr ℝ)) = 0 := by
+    simp [rmseOf, zero]
+  simp only [countInliers, h, hu, hr]
+  norm_num [Consensus.cleared]
+
+example : (estimateModel (sampledOps sc1 id) (0.99 : ℝ) 0 1 s1).ret = true ∧ s1.rigid.cons.best = [] ∧
+    s1.rigid.sorted.length < 2 ^ 24 := by
+  refine ⟨?_, by simp [s1, Consensus.cleared], by simp [s1]⟩
+  rw [composed_ret_iff]
+  refine ⟨by simp [s1, minInlOf, nDrawOf, C06.drawPoints2D, C06.minimalInliersFactor], ?_⟩
+  have hmin : minInlOf 2 = 6 := by simp [minInlOf, nDrawOf, C06.drawPoints2D, C06.minimalInliersFactor]
+  have hf0 : f32round 0 = 0 := by decide
+  have hf6 : f32round 6 = 6 := by decide
+  have hnd : nDrawOf s1.rigid.dim = 3 := by simp [s1, nDrawOf, C06.drawPoints2D]
+  rw [hnd]
+  simp only [estimateModel, sampledOps, rigidOps, s1, hmin, nDrawOf, C06.drawPoints2D]
+  simp only [loop, body, drawSampled, sc1, hmin, s1_count, hf0, hf6]
+  have hle : (Iterations.update (0 : ℝ) (Iterations.init 0.99 6 1) 6 3).n ≤ 1 := by
+    have := iteration_bound_update_le (0 : ℝ) (Iterations.init 0.99 6 1) 6 3
+    simpa [Iterations.init] using this
+  have hnot : ¬ (1 : ℝ) < (Iterations.update (0 : ℝ) (Iterations.init 0.99 6 1) 6 3).n := not_lt.mpr hle
+  have h0 : (0 : ℝ) < (Iterations.init (0.99 : ℝ) 6 1).n := by simp [Iterations.init]
+  simp [hnot, h0]
+
+/-- `composed_terminates` at that model: the run of `s0_iterations` used exactly its cap -/
+example : (estimateModel (sampledOps sc0 id) (0.99 : ℝ) 0 2 s0).iterations ≤ 2 :=
+  (composed_terminates sc0 id 0.99 0 2 s0).2.1
+
+/-- the script of the equivalent skeleton run (`composed_run_is_skeleton_run`) has one candidate per possible pass -/
+example : (toRigid sc0 3 s0).todo.length = 3 := by
+  rw [(oracle_list_is_geometry_of_samples sc0 3 s0).1, List.length_zipWith,
+    (oracle_list_is_geometry_of_samples sc0 3 s0).2]
+  simp
+
+/-- `composed_deterministic` / `fresh_composed_agree` apply to a used object whose leftovers differ from a fresh one's -/
+example : (⟨engineInit, List.replicate 2 Sampler.zero, [0.5, 0.25], [1, 1]⟩ : Sampler.State ℝ ℝ).engine = engineInit ∧
+    (⟨engineInit, List.replicate 2 Sampler.zero, [0.5, 0.25], [1, 1]⟩ : Sampler.State ℝ ℝ).scale = List.replicate 2 Sampler.zero ∧
+    (⟨engineInit, List.replicate 2 Sampler.zero, [0.5, 0.25], [1, 1]⟩ : Sampler.State ℝ ℝ).weights
+      ≠ (Sampled.fresh s0.rigid 2 : Sampled ℝ ℝ).smp.weights := by
+  refine ⟨rfl, rfl, ?_⟩
+  simp [Sampled.fresh, Sampler.State.init]
+
+/-- two ICP iterations on one object (`composed_engine_across_runs`): the total is the sum over the runs -/
+example : (runLoads [⟨sc0, id, (0.99 : ℝ), 0, 2, s0.rigid⟩, ⟨sc0, id, 0.99, 0, 2, s0.rigid⟩] s0.smp).2
+    = 3 * (estimateModel (sampledOps sc0 id) (0.99 : ℝ) 0 2 s0).iterations
+      + (3 * (estimateModel (sampledOps sc0 id) (0.99 : ℝ) 0 2
+          ⟨s0.rigid, (estimateModel (sampledOps sc0 id) (0.99 : ℝ) 0 2 s0).s.smp, []⟩).iterations + 0) := by
+  simp [runLoads, s0, nDrawOf, C06.drawPoints2D]
+
+end ComposedExamples
 
 end Romea.C06
